@@ -82,6 +82,14 @@ func vUseMessage(m *AuditMessage, prop string) {
 func VH_LineTotal() {
 	n := vLen("n", vParam("maxlen", 4))
 	line := vASCII("line", n)
+	switch vParam("template", 0) {
+	case 1: // the record type name is the unknown
+		line = "type=" + line + " msg=audit(1.000:1): a=b"
+	case 2: // what stands between the type and the header is the unknown
+		line = "type=SYSCALL" + line + "audit(1.000:1): a=b"
+	case 3: // inside UNKNOWN[...]
+		line = "type=UNKNOWN[" + line + "] msg=audit(1.000:1): a=b"
+	}
 	m, err := ParseLogLine(line)
 	vAssert((err != nil) == (m == nil), "C05/error-and-message-disagree")
 	if m != nil {
